@@ -128,6 +128,7 @@ pub fn classes_of(o: &Outcome) -> Vec<&'static str> {
     add(f.remove_acked_refused > 0, "history_removal_refused_unacked");
     add(f.unparseable > 0, "unparseable_datagram");
     add(f.storm, "delivery_bound_hit");
+    add(o.be_frag_due, "best_effort_fragmented_sample_arrived_completely");
     add(o.two_readers, "two_readers");
     add(o.colocated, "readers_colocated");
     add(o.any_reliable, "reliable_reader");
